@@ -25,6 +25,7 @@ fn main() {
         "bloat" => mcv::l3::run_bloat(&ctx),
         "slots" => mcv::l3b::run_c17(&ctx),
         "fault" => mcv::l3b::run_c18(&ctx),
+        "stall" => mcv::l3b::run_stall(&ctx),
         "config" => mcv::config::run_c20(&ctx),
         "linsock" => mcv::linsock::run_linsock(&ctx),
         "timer" => mcv::linsock::run_timer(&ctx),
